@@ -24,6 +24,7 @@ import MW.Lemmas.KsRefineSecrecy
 import MW.Lemmas.KsRefineToy
 import MW.Lemmas.KsRefineBound
 import MW.Lemmas.KsRefineFree
+import MW.Lemmas.KsRefineTotal
 import MW.Props.C05
 namespace MW.Props.C05Abs
 open MW MW.Model.Secrets MW.Model.KsCodec MW.Model.KsBytes MW.KsRefine
@@ -243,11 +244,39 @@ theorem any_reading_opaque (C : BCrypto) (pv : Bytes) (F : Free C pv) (t u : Ter
     (hp : pubOk t = true) (h : bytesOf C pv u = bytesOf C pv t) : pubOk u = true :=
   MW.KsRefine.any_reading_opaque C pv F t u ht hu hp h
 
+-- ------------------------------------------------------------------ the byte-level MACHINE (what the driver executes)
+
+/-- whenever the byte-level run (`runB`: per operation the writers above, driven by the outcome of the symbolic step) of a
+    history succeeds, its tree represents the symbolic state, under the public valuation of that state (fixed formats, the
+    counters of the wallet records, the public data π) -/
+theorem machine_sound (C : BCrypto) (L : Laws C) (π : PubData) (ops : List Op) (hops : ∀ o ∈ ops, OpOk o) (t : Tree)
+    (hrun : runB C π {} (fun _ => []) ops = .ok t) :
+    Rep C (pubValsOf π (C05.reach ops).wal) (C05.reach ops).db t :=
+  runB_sound C L π ops {} (fun _ => []) t hops init_b (rep_empty C _) hrun
+
+/-- THE BYTE-LEVEL MACHINE REFINES THE SYMBOLIC MACHINE over whole histories: the run SUCCEEDS (every Put is accepted, every
+    account id is new when the symbolic model installs it – naming invariant –, every record fits) and its tree represents
+    the symbolic state -/
+theorem machine_refines (C : BCrypto) (L : Laws C) (π : PubData) (hbb : BoxBound C π) (ops : List Op) (hops : ∀ o ∈ ops, OpOk o) :
+    ∃ t, runB C π {} (fun _ => []) ops = .ok t ∧ Rep C (pubValsOf π (C05.reach ops).wal) (C05.reach ops).db t :=
+  runB_refines C L π hbb ops hops
+
+/-- … and under independence no value of the tree it builds contains the encoding of an atomic secret -/
+theorem machine_no_clear_secret (C : BCrypto) (L : Laws C) (π : PubData) (hbb : BoxBound C π) (ops : List Op)
+    (hops : ∀ o ∈ ops, OpOk o) (hind : Indep C (pubValsOf π (C05.reach ops).wal)) :
+    ∃ t, runB C π {} (fun _ => []) ops = .ok t ∧ ∀ p kb v, tget t (p, kb) = some v → ∀ s : Sec, ¬ (C.atom s <:+: v) :=
+  runB_no_secret C L π hbb ops hops hind
+
 -- ------------------------------------------------------------------ non-vacuity
 
 /-- the assumptions are satisfiable together -/
 example : Laws Toy.toy := Toy.toy_laws
 example : Indep Toy.toy Toy.ρ1 := Toy.toy_indep Toy.ρ1 Toy.ρ1_clean
+
+/-- hypotheses of the machine theorems on the toy instance and a two-operation history (create, new address) -/
+example : BoxBound Toy.toy Toy.πtoy := Toy.toy_boxBound
+example : ∀ o ∈ Toy.demo2, OpOk o := Toy.demo2_ok
+example : Indep Toy.toy (pubValsOf Toy.πtoy (C05.reach Toy.demo2).wal) := Toy.demo2_indep
 
 /-- the free-algebra assumption is satisfiable (tagged, self-delimiting toy encodings), together with `Laws` -/
 example : Free ToyF.toyF [9] := ToyF.toyF_free [9] rfl
